@@ -622,6 +622,8 @@ func (e *FEnc) binop(st *State, x *ssa.BinOp) {
 	}
 }
 
+// concat builds string concatenation in a canonical (right-nested, flattened) form so that
+// (a+b)+c and a+(b+c) are the same term.
 func (e *FEnc) concat(a, b string) string {
 	empty := e.d.strLit("")
 	if a == empty {
@@ -630,7 +632,41 @@ func (e *FEnc) concat(a, b string) string {
 	if b == empty {
 		return a
 	}
-	t := e.defTerm("cat", fmt.Sprintf("(concat_s %s %s)", a, b), "Str")
+	parts := append(append([]string{}, e.partsOf(a)...), e.partsOf(b)...)
+	return e.concatList(parts)
+}
+
+func (e *FEnc) partsOf(t string) []string {
+	if p, ok := e.catParts[t]; ok {
+		return p
+	}
+	return []string{t}
+}
+
+func (e *FEnc) concatList(parts []string) string {
+	if len(parts) == 1 {
+		return parts[0]
+	}
+	key := strings.Join(parts, "\x00")
+	if t, ok := e.catCache[key]; ok {
+		return t
+	}
+	rest := e.concatList(parts[1:])
+	t := e.concat2(parts[0], rest)
+	e.catCache[key] = t
+	e.catParts[t] = parts
+	return t
+}
+
+func (e *FEnc) concat2(a, b string) string {
+	empty := e.d.strLit("")
+	t := fmt.Sprintf("(concat_s %s %s)", a, b)
+	if !e.noFacts {
+		t = e.defTerm("cat", t, "Str")
+		if !strings.HasPrefix(t, "(") {
+			// named: make sure the name is long-lived
+		}
+	}
 	e.fact(eq(fmt.Sprintf("(len_s %s)", t), fmt.Sprintf("(+ (len_s %s) (len_s %s))", a, b)))
 	e.fact(fmt.Sprintf("(forall ((i Int)) (! (=> (and (<= 0 i) (< i (len_s %s))) (= (at_s %s i) (ite (< i (len_s %s)) (at_s %s i) (at_s %s (- i (len_s %s)))))) :pattern ((at_s %s i))))", t, t, a, a, b, a, t))
 	e.fact(fmt.Sprintf("(= (= (len_s %s) 0) (= %s %s))", t, t, empty))
